@@ -31,17 +31,17 @@ ASSUMPTIONS = [
     "held means: held on the executions listed, not verified for all descriptors",
 ]
 MINIMA = {"quick": {"reads_compared": 3000, "boundary_straddling_requests": 500, "sesparse_extents": 10, "hdd_cases": 20, "special_name_cases": 30, "multi_extent_delta_cases": 8},
-          "thorough": {"reads_compared": 30000}}
+          "thorough": {"reads_compared": 300000}}
 MECH = "multi-extent"
 NAMES = ["disk", "my disk", "Windows 10 x64 #2", "d (copy)", "dísk-ü", "диск", "磁盘", "disk😀", "a'b", 'q"uote', "x #1 y", "sp  ace", "tab-x", "100% real", "semi;colon", "eq=sign"]
 
 
 def plan(tier: str, seed: int) -> list[dict]:
     cases = []
-    n = 110 if tier == "quick" else 2500
+    n = 110 if tier == "quick" else 12000
     for i in range(n):
         cases.append({"k": "vmdk", "i": i})
-    for i in range(30 if tier == "quick" else 600):
+    for i in range(30 if tier == "quick" else 3000):
         cases.append({"k": "hdd", "i": i})
     for i in range(16 if tier == "quick" else 300):
         cases.append({"k": "vmdk-delta-multi", "i": i})
